@@ -18,6 +18,7 @@ access(all) contract World {
     access(all) entitlement Y
 
     access(all) event End()
+    access(all) event Mark(name: String)
     access(all) event Made(id: Int, uuid: UInt64)
     access(all) event Rich(a: Int, b: String, c: [UInt8], d: {String: Int}, e: Address, f: Int?, g: Type, h: StoragePath, i: S, k: UFix64, l: [S], m: Bool, n: Character)
 
@@ -155,6 +156,7 @@ access(all) contract World {
     access(all) fun idAny(_ s: AnyStruct): AnyStruct { return s }
 //OBS//
     access(all) fun end() { emit End() }
+    access(all) fun mark(_ name: String) { emit Mark(name: name) }
     access(all) fun fail(_ m: String) { panic(m) }
     access(all) fun rich(_ n: Int) {
         emit Rich(a: n, b: n.toString(), c: [1, 2, UInt8(n % 200)], d: {"k": n}, e: 0x1, f: n % 2 == 0 ? n : nil, g: Type<@R>(), h: /storage/p,
